@@ -78,6 +78,7 @@ struct GenOpts {
 	bool need_track_output = false;   // at least one board with the DCC-main class bit
 	bool need_segments = false;
 	bool simple_ids = true;
+	bool wide_dcc = false;            // DCC address high bytes over 0..255 (C14 only: other properties rely on 14-bit addresses)
 };
 
 // Valid configuration (by construction) drawn from the case bytes.
